@@ -73,6 +73,7 @@ type inliner struct {
 	p        *Program
 	seq      int
 	absorbed map[*ast.Ident]bool // original call-site identifiers whose call was absorbed
+	litFuncs map[*types.Var]*types.Func // local closures used as helpers (`fail := func(err error) { … }`)
 	folders  []*folder           // restored helpers (restore.go)
 	Stats    struct{ Calls, Exprs, Folded int }
 }
@@ -90,10 +91,8 @@ func (p *Program) normalise() {
 			cand = true
 		}
 	}
-	if !cand {
-		return
-	}
-	in := &inliner{p: p, absorbed: map[*ast.Ident]bool{}}
+	_ = cand // (local closures used as helpers are found per declaration)
+	in := &inliner{p: p, absorbed: map[*ast.Ident]bool{}, litFuncs: map[*types.Var]*types.Func{}}
 	// restored helpers: fold the copies that were written out at their call sites back into calls
 	for h := range p.restoredFn {
 		if f := p.newFolder(h); f != nil {
@@ -180,6 +179,8 @@ type cloner struct {
 	fresh    *freshener              // per absorbed call: the helper's locals get objects of their own
 	curSig   *types.Signature        // signature of the function (or function literal) whose body is being cloned
 	replace  map[ast.Node]*ast.Ident // helper calls in argument position, hoisted into a temporary
+	top      *ast.BlockStmt          // body of the declaration being normalised (as written)
+	tailOK   bool                    // set while the callee of a `return h(…)` statement is looked up
 }
 
 // freshener gives every local variable of one absorbed helper body a new object, so that two
@@ -359,6 +360,14 @@ func (c *cloner) callee(info *types.Info, call *ast.CallExpr) (*types.Func, *ast
 		return nil, nil
 	}
 	fn, _ := info.Uses[id].(*types.Func)
+	if fn == nil {
+		// a local variable bound once to a function literal is a helper written in place
+		if v, ok := info.Uses[id].(*types.Var); ok && !v.IsField() && c.top != nil {
+			if _, isSel := ast.Unparen(call.Fun).(*ast.SelectorExpr); !isSel {
+				fn = c.localClosure(info, v)
+			}
+		}
+	}
 	if fn == nil || InBaseline(fn) {
 		return nil, nil
 	}
@@ -381,11 +390,11 @@ func (c *cloner) callee(info *types.Info, call *ast.CallExpr) (*types.Func, *ast
 			return nil, nil
 		}
 	}
-	bad := false
+	bad, hasDefer := false, false
 	ast.Inspect(d.Body, func(n ast.Node) bool {
 		switch x := n.(type) {
 		case *ast.DeferStmt:
-			bad = true
+			hasDefer = true
 		case *ast.FuncLit:
 			return false
 		case *ast.CallExpr:
@@ -401,6 +410,13 @@ func (c *cloner) callee(info *types.Info, call *ast.CallExpr) (*types.Func, *ast
 	})
 	if bad {
 		return nil, nil
+	}
+	if hasDefer {
+		// a helper that defers something can only take the place of `return h(…)`: its deferred calls then run
+		// when the caller returns, which is when they ran before
+		if !c.tailOK {
+			return nil, nil
+		}
 	}
 	return fn, id
 }
@@ -566,7 +582,7 @@ func (c *cloner) tryExprInline(call *ast.CallExpr) ast.Expr {
 		return nil
 	}
 	// arguments are cloned first (they may contain absorbable calls themselves) and must be stable
-	args := &cloner{src: c.src, dst: c.dst, subst: c.subst, in: c.in, pk: c.pk, stack: c.stack, fresh: c.fresh, replace: c.replace}
+	args := &cloner{src: c.src, dst: c.dst, subst: c.subst, in: c.in, pk: c.pk, stack: c.stack, fresh: c.fresh, replace: c.replace, top: c.top}
 	ncall := &ast.CallExpr{Fun: args.node(call.Fun).(ast.Expr), Lparen: call.Lparen, Rparen: call.Rparen}
 	for _, a := range call.Args {
 		ncall.Args = append(ncall.Args, args.node(a).(ast.Expr))
@@ -577,7 +593,7 @@ func (c *cloner) tryExprInline(call *ast.CallExpr) ast.Expr {
 		return nil
 	}
 	calleeInfo := c.in.p.pkgOfObj[fn.Pkg()].TypesInfo
-	body := &cloner{src: calleeInfo, dst: c.dst, subst: subst, in: c.in, pk: c.pk, stack: append(append([]*types.Func{}, c.stack...), fn), fresh: fr}
+	body := &cloner{src: calleeInfo, dst: c.dst, subst: subst, in: c.in, pk: c.pk, stack: append(append([]*types.Func{}, c.stack...), fn), fresh: fr, top: c.top}
 	e := body.node(ret.Results[0]).(ast.Expr)
 	c.in.Stats.Exprs++
 	c.markAbsorbed(id)
@@ -634,12 +650,22 @@ func (in *inliner) normaliseDecl1(pk *packages.Package, fn *types.Func, d *ast.F
 				any = true
 			}
 		}
+		if call, ok := n.(*ast.CallExpr); ok {
+			// a call of a local variable of function type: possibly a helper written in place
+			if id, ok := ast.Unparen(call.Fun).(*ast.Ident); ok {
+				if v, ok := pk.TypesInfo.Uses[id].(*types.Var); ok && !v.IsField() {
+					if _, isFunc := v.Type().Underlying().(*types.Signature); isFunc {
+						any = true
+					}
+				}
+			}
+		}
 		return !any
 	})
 	if !any {
 		return nil
 	}
-	c := &cloner{src: pk.TypesInfo, dst: pk.TypesInfo, in: in, pk: pk, stack: []*types.Func{fn}}
+	c := &cloner{src: pk.TypesInfo, dst: pk.TypesInfo, in: in, pk: pk, stack: []*types.Func{fn}, top: d.Body}
 	c.curSig, _ = fn.Type().(*types.Signature)
 	body := c.block(d.Body)
 	nd := *d
@@ -932,7 +958,9 @@ func (c *cloner) clauses(b *ast.BlockStmt) *ast.BlockStmt {
 // absorb replaces a statement whose whole effect is one helper call by the helper's body.
 // lhs/tok: the assignment receiving the results; tail: the statement is `return call`.
 func (c *cloner) absorb(call *ast.CallExpr, lhs []ast.Expr, tok token.Token, tail bool, at ast.Stmt) []ast.Stmt {
+	c.tailOK = tail
 	fn, id := c.callee(c.src, call)
+	c.tailOK = false
 	if fn == nil {
 		return nil
 	}
@@ -954,7 +982,7 @@ func (c *cloner) absorb(call *ast.CallExpr, lhs []ast.Expr, tok token.Token, tai
 		}
 	}
 	// the call itself, cloned in the caller's context (arguments may contain absorbable calls)
-	args := &cloner{src: c.src, dst: c.dst, subst: c.subst, in: c.in, pk: c.pk, stack: c.stack, fresh: c.fresh, replace: c.replace}
+	args := &cloner{src: c.src, dst: c.dst, subst: c.subst, in: c.in, pk: c.pk, stack: c.stack, fresh: c.fresh, replace: c.replace, top: c.top}
 	ncall := &ast.CallExpr{Fun: args.node(call.Fun).(ast.Expr), Lparen: call.Lparen, Rparen: call.Rparen}
 	for _, a := range call.Args {
 		ncall.Args = append(ncall.Args, args.node(a).(ast.Expr))
@@ -1006,7 +1034,7 @@ func (c *cloner) absorb(call *ast.CallExpr, lhs []ast.Expr, tok token.Token, tai
 	}
 	c.in.seq++
 	label := "inl" + strconv.Itoa(c.in.seq) + "_" + fn.Name()
-	body := &cloner{src: calleeInfo, dst: c.dst, subst: subst, in: c.in, pk: c.pk, stack: append(append([]*types.Func{}, c.stack...), fn), fresh: fr}
+	body := &cloner{src: calleeInfo, dst: c.dst, subst: subst, in: c.in, pk: c.pk, stack: append(append([]*types.Func{}, c.stack...), fn), fresh: fr, top: c.top}
 	usedBreak := false
 	resultRef := func(k int, pos token.Pos) ast.Expr {
 		obj := resObjs[k]
@@ -1192,8 +1220,8 @@ func (c *cloner) absorb(call *ast.CallExpr, lhs []ast.Expr, tok token.Token, tai
 				}
 				return true
 			})
-			if has {
-				panic(giveUp{})
+			if has && !(tail && !named) {
+				panic(giveUp{}) // (in tail position with explicit results the returns can stay what they are)
 			}
 		}
 		// statements without nested returns: absorb helper calls inside them as well
@@ -1250,4 +1278,49 @@ func isPlainCall(s ast.Stmt, orig *ast.CallExpr) bool {
 	}
 	_, isCall := ast.Unparen(es.X).(*ast.CallExpr)
 	return isCall
+}
+
+// localClosure returns a function object standing for `v := func(…) { … }` when v is assigned exactly
+// once in the declaration being normalised and never has its address taken.
+func (c *cloner) localClosure(info *types.Info, v *types.Var) *types.Func {
+	if fn, ok := c.in.litFuncs[v]; ok {
+		return fn
+	}
+	c.in.litFuncs[v] = nil
+	n := 0
+	var lit *ast.FuncLit
+	var name *ast.Ident
+	ast.Inspect(c.top, func(x ast.Node) bool {
+		switch y := x.(type) {
+		case *ast.AssignStmt:
+			for i, l := range y.Lhs {
+				if id, ok := l.(*ast.Ident); ok && (info.Defs[id] == types.Object(v) || info.Uses[id] == types.Object(v)) {
+					n++
+					if len(y.Lhs) == len(y.Rhs) {
+						if fl, ok := ast.Unparen(y.Rhs[i]).(*ast.FuncLit); ok {
+							lit, name = fl, id
+						}
+					}
+				}
+			}
+		case *ast.UnaryExpr:
+			if y.Op == token.AND {
+				if id, ok := ast.Unparen(y.X).(*ast.Ident); ok && info.Uses[id] == types.Object(v) {
+					n += 2
+				}
+			}
+		}
+		return true
+	})
+	if n != 1 || lit == nil {
+		return nil
+	}
+	sig, _ := info.Types[lit].Type.(*types.Signature)
+	if sig == nil {
+		return nil
+	}
+	fn := types.NewFunc(lit.Pos(), v.Pkg(), v.Name(), sig)
+	c.in.p.declOf[fn] = &ast.FuncDecl{Name: name, Type: lit.Type, Body: lit.Body}
+	c.in.litFuncs[v] = fn
+	return fn
 }
